@@ -578,7 +578,8 @@ def forward_substitute(stmts: List[ast.stmt], T: Translator, stop_at: Optional[a
                 v = T.tr(st.value)
                 for i, e in enumerate(t.elts):
                     if isinstance(e, ast.Name):
-                        T.env[e.id] = sp.Function("item")(v, sp.Integer(i))
+                        # unpacking a known display gives its elements
+                        T.env[e.id] = v[i] if isinstance(v, sp.Tuple) and i < len(v) else sp.Function("item")(v, sp.Integer(i))
             elif isinstance(t, (ast.Attribute, ast.Subscript)):
                 T.env[unparse(t)] = T.tr(st.value)
         elif isinstance(st, ast.AugAssign):
